@@ -43,6 +43,8 @@ def lit(leaf):
         return "nil" if v is None else str(v)
     if k in ("int", "intlit-wide"):
         return str(v)
+    if k == "negwide":             # unary minus written directly on an integer literal that does not fit 32 bits: a bigint, whatever the negated value fits
+        return f"-{v}"
     if k == "bigint":
         return f"B{v}"
     if k == "byte":
@@ -81,7 +83,7 @@ def render(t, names):
     raise ValueError(tag)
 
 
-TYPE = {"int": "int", "intlit-wide": "bigint", "bigint": "bigint", "byte": "byte", "float": "float", "bool": "bool"}
+TYPE = {"int": "int", "intlit-wide": "bigint", "negwide": "bigint", "bigint": "bigint", "byte": "byte", "float": "float", "bool": "bool"}
 
 
 def decl(nm, leaf, other_kind="int"):
@@ -295,7 +297,8 @@ class C06(Check):
 
         def mixed():
             lv = LEAVES if tier == "thorough" else [l for i, l in enumerate(LEAVES) if i % 2 == 0 or l[0] == "intlit-wide"]
-            wide = [("form", "intlit-wide", v, sp) for v, sp in ((2147483648, "0x80000000"), (4294967295, "0xFFFF_FFFF"))] + [("intlit-wide", 2 ** 40), ("intlit-wide", 2 ** 127 - 1)]
+            wide = ([("form", "intlit-wide", v, sp) for v, sp in ((2147483648, "0x80000000"), (4294967295, "0xFFFF_FFFF"))] + [("intlit-wide", 2 ** 40), ("intlit-wide", 2 ** 127 - 1)]
+                    + [("negwide", 2147483648), ("negwide", 2147483649), ("negwide", 2 ** 40)])
             for op in OPS:
                 for a, b in itertools.product(lv + wide, lv + wide):
                     for side in (0, 1):
